@@ -14,6 +14,8 @@ import AcnModel.Wire
 import AcnModel.Feas
 import AcnModel.Sorted
 import AcnModel.Gen.Consts
+import AcnModel.WireSim
+import AcnModel.SimSorted
 
 namespace Acn.WireSorted
 open Lean Acn Acn.Wire Acn.Sorted
@@ -50,7 +52,24 @@ def parsePrev (j : Json) : Except String (List (String × Float × Float)) := do
 def jSess (s : Session Float) : Json :=
   Json.arr #[jS s.session, jS s.station, jF s.minRate, jF s.maxRate]
 
-def handle (j : Json) : Except String Json := do
+/-- optional field "simrun": a whole-simulation scenario (`WireSim` request format without "sched");
+    the answer is `Sim.run` with the MODELLED sorted algorithm / uncontrolled baseline as the
+    scheduler parameter (`AcnModel/SimSorted.lean`), i.e. the composition model -/
+def simRun (j : Json) (cfg : Option (Config Float)) (M : List (List Float)) (lims c s : List Float)
+    (vt rt : Float) : Except String (Option Json) := do
+  match j.getObjVal? "simrun" with
+  | .error _ => pure none
+  | .ok Json.null => pure none
+  | .ok sj =>
+    let scfg ← parseSimCfg sj
+    let net : SimSorted.NetInfo Float := { M, lims, cos := c, sin := s, vt, rt }
+    let sched := match cfg with
+      | some k => SimSorted.sortedSched net infF scfg k
+      | none => SimSorted.uncontrolledSched infF scfg
+    let r := Sim.run scfg sched (EventCore.fuelFor scfg.core) (Sim.init scfg)
+    pure (some (jResult scfg r))
+
+def handleCalls (j : Json) : Except String Json := do
   let algo ← getStr j "algo"
   let ij ← j.getObjVal? "infra"
   let infra ← parseInfra ij
@@ -73,7 +92,8 @@ def handle (j : Json) : Except String Json := do
         let d := uncontrolled infra l
         outs := outs.push (Json.mkObj [("err", Json.null),
           ("dict", jList (fun (p : String × List Float) => Json.arr #[jS p.1, jFs p.2]) d)])
-    return Json.mkObj [("calls", Json.arr outs)]
+    let sr ← simRun j none M lims c s vt rt
+    return Json.mkObj [("calls", Json.arr outs), ("simrun", sr.getD Json.null)]
   let sort ← parseSort (← getStr j "sort")
   let rj ← j.getObjVal? "ramp"
   let cfg : Config Float :=
@@ -104,6 +124,9 @@ def handle (j : Json) : Except String Json := do
       outs := outs.push (Json.mkObj (("err", Json.null) :: ("schedule", jFs sch) ::
         ("dict", jList (fun (p : String × List Float) => Json.arr #[jS p.1, jFs p.2])
                   (formatArraySchedule infra sch)) :: common))
-  pure (Json.mkObj [("calls", Json.arr outs)])
+  let sr ← if cfg.estimate then pure none else simRun j (some cfg) M lims c s vt rt
+  pure (Json.mkObj [("calls", Json.arr outs), ("simrun", sr.getD Json.null)])
+
+def handle (j : Json) : Except String Json := handleCalls j
 
 end Acn.WireSorted
